@@ -31,9 +31,13 @@ structure HObj where
   cfg : Nat           -- reference to a Config cell
   st : Nat            -- reference to a status cell
   buf : Nat           -- reference to a buffer cell
-  off : Nat           -- window of the buffer seen by this object
+  off : Nat           -- window of the buffer seen by this object: elements `off + k * stride`, `k < len`
   len : Nat
+  stride : Int := 1   -- 1 for everything but strided views (`a[::2]`, `a[::-1]`, a column `a[:, j]`)
 deriving Repr
+
+/-- buffer position of element `k` of the object. -/
+def HObj.pos (x : HObj) (k : Nat) : Nat := ((x.off : Int) + (k : Int) * x.stride).toNat
 
 structure Heap where
   next : Nat
@@ -56,7 +60,8 @@ def update {α} (l : List (Nat × α)) (k : Nat) (v : α) : List (Nat × α) :=
 
 def Heap.find (h : Heap) (n : String) : Option HObj := h.objs.find? (fun o => o.name == n)
 
-def Heap.codes (h : Heap) (x : HObj) : List Int := ((lookup h.bufs x.buf []).drop x.off).take x.len
+def Heap.codes (h : Heap) (x : HObj) : List Int :=
+  (List.range x.len).map (fun k => ((lookup h.bufs x.buf [])[x.pos k]?).getD 0)
 def Heap.cfgOf (h : Heap) (x : HObj) : Cfg := lookup h.cfgs x.cfg defaultCfg
 def Heap.flagsOf (h : Heap) (x : HObj) : Flags3 := lookup h.sts x.st clean
 
@@ -91,6 +96,8 @@ inductive HStep
   | lshift (c a : String) (n : Nat)          -- c = a << n
   | rshiftKeep (c a : String) (n : Nat)      -- c = a >> n with shifting = 'trunc' / 'keep' (deep copy of a, shifted codes)
   | index (v a : String) (i : Nat)           -- v = a[i]  (row view of a 2-D object)
+  | slice (v a : String) (start : Nat) (step : Int) (n : Nat)   -- v = a[start::step] (n elements) of a 1-D object: strided view
+  | column (v a : String) (j : Nat)          -- v = a[:, j] of a 2-D object: view with stride `cols`
   | write (a : String) (vs : List Rat)       -- a(vs): whole-value write (new buffer)
   | windex (a : String) (i : Nat) (v : Rat)  -- a[i] = v: in place
   | setCfg (a : String) (c : Cfg)            -- a.config.rounding / overflow = …
@@ -153,6 +160,22 @@ def Heap.step (h : Heap) : HStep → Heap
       { h with next := h.next + 2, cfgs := (c, h.cfgOf x) :: h.cfgs, sts := (s, clean) :: h.sts,
                objs := h.objs ++ [{ name := v, fmt := x.fmt, rows := 0, cols := x.cols, cfg := c, st := s,
                                     buf := x.buf, off := x.off + i * x.cols, len := x.cols }] }
+  | .slice v a start step n =>
+    match h.find a with
+    | none => h
+    | some x =>
+      let c := h.next; let s := h.next + 1
+      { h with next := h.next + 2, cfgs := (c, h.cfgOf x) :: h.cfgs, sts := (s, clean) :: h.sts,
+               objs := h.objs ++ [{ name := v, fmt := x.fmt, rows := 0, cols := n, cfg := c, st := s,
+                                    buf := x.buf, off := x.pos start, len := n, stride := x.stride * step }] }
+  | .column v a j =>
+    match h.find a with
+    | none => h
+    | some x =>
+      let c := h.next; let s := h.next + 1
+      { h with next := h.next + 2, cfgs := (c, h.cfgOf x) :: h.cfgs, sts := (s, clean) :: h.sts,
+               objs := h.objs ++ [{ name := v, fmt := x.fmt, rows := 0, cols := x.rows, cfg := c, st := s,
+                                    buf := x.buf, off := x.off + j, len := x.rows, stride := x.cols }] }
   | .write a vs =>
     match h.find a with
     | none => h
@@ -161,13 +184,13 @@ def Heap.step (h : Heap) : HStep → Heap
       -- `self.val = new_val`: the object gets a new buffer; former views keep the old one
       let b := h.next
       { h with next := h.next + 1, bufs := (b, cs) :: h.bufs, sts := update h.sts x.st (orFlags (h.flagsOf x) fl),
-               objs := h.objs.map (fun o => if o.name == a then { o with buf := b, off := 0, len := cs.length } else o) }
+               objs := h.objs.map (fun o => if o.name == a then { o with buf := b, off := 0, len := cs.length, stride := 1 } else o) }
   | .windex a i v =>
     match h.find a with
     | none => h
     | some x =>
       let (cs, fl) := storeConds x.fmt (h.cfgOf x) [scale v x.fmt.nfrac]
-      { h with bufs := update h.bufs x.buf (writeWindow (lookup h.bufs x.buf []) (x.off + i) cs),
+      { h with bufs := update h.bufs x.buf (writeWindow (lookup h.bufs x.buf []) (x.pos i) cs),
                sts := update h.sts x.st (orFlags (h.flagsOf x) fl) }
   | .setCfg a c =>
     match h.find a with
